@@ -371,6 +371,8 @@ func rulesC04(w *World, r *Report) {
 	w.ruleTablesStartEmpty(r, "C04.R7 numbering tables start empty", []string{"Encoder", "Decoder"})
 	w.ruleRefOrdinal(r, "C04.R8 a back-reference is x51 followed by the registrar's ordinal in the int codec")
 	w.ruleHolderTakesConverted(r, "C04.R5 a list converted for its first destination is handed back to its holder")
+	w.ruleHolderIsRegistered(r, "C04.R5 the holder of a list is what the reference table holds")
+	w.ruleChangeStores(r, "C04.R4 the holder takes a changed slice")
 	w.ruleNotifyAfterFinalValue(r, "C04.R5 references keep identity")
 
 	// R3 decoder: container readers
